@@ -151,6 +151,16 @@ def _check_local_carriers(ctx, P):
             news = [x for x in strip(recv) if x[0] == "call" and (strip_generics(x[1]).endswith("Vec::new") or strip_generics(x[1]).endswith("HashSet::new"))]
             for nw in news:
                 carriers.setdefault(nw, []).append(pb)
+        # a local set that collects the due times returned by the cache's refresh functions is a carrier too
+        for b, t in f.calls():
+            if method(cname(t)) != "extend" or len(t["args"]) < 2:
+                continue
+            src = tr.operand(t["args"][1], endpos(f, b))
+            if not any(x[0] == "call" and "refresh_due" in x[1] for x in walk(src)):
+                continue
+            recv = tr.operand(t["args"][0], endpos(f, b))
+            for nw in [x for x in strip(recv) if x[0] == "call" and (strip_generics(x[1]).endswith("Vec::new") or strip_generics(x[1]).endswith("HashSet::new"))]:
+                carriers.setdefault(nw, []).append(b)
         for nw, pbs in carriers.items():
             # drain: an add_timer / heap push whose argument iterates this collection
             drains = []
